@@ -124,13 +124,22 @@ func reverseCriteriaForEachAlternative(
 		newCriteria := a.Criteria.Copy()
 		for ic, c := range *criteriaToReverse {
 			currentValue := newCriteria.Fetch(c.criterion.Id)
-			newValue := c.valRange.Max - currentValue + c.valRange.Min
+			newValue := mirrorInRange(currentValue, c.valRange)
 			alternativesValues[ic][a.Id] = newValue
 			(*newCriteria)[c.criterion.Id] = newValue
 		}
 		allAlternatives[i] = *a.WithCriteriaValues(newCriteria)
 	}
 	return &allAlternatives, &alternativesValues
+}
+
+// max + min - value, measured from the nearer end of the range: the ends of the range are mapped exactly onto each other
+// (max - min + min misses max by one ulp for [0.2, 0.9], and leaves the range for [-0.1, 0.3])
+func mirrorInRange(value float64, valRange *utils.ValueRange) float64 {
+	if value-valRange.Min <= valRange.Max-value {
+		return valRange.Max - (value - valRange.Min)
+	}
+	return valRange.Min + (valRange.Max - value)
 }
 
 func (p *PreferenceReversal) getCriterionValueRange(originalParams *model.DecisionMakingParams, referenceCriterion *model.Criterion) *utils.ValueRange {
